@@ -144,7 +144,7 @@ def random_spec(rng):
             spec["excludes"] = "mg"
         if rng.random() < 0.3:
             spec["group"] = "mg"
-        elif rng.random() < 0.2:
+        elif rng.random() < 0.35:
             spec["group"] = "xmg"        # a group whose name merely *contains* the other group's name
         if rng.random() < 0.25:
             spec["inclusive"] = False
@@ -164,7 +164,7 @@ def random_spec(rng):
             return "_"
         if r < 0.7:
             return ""
-        if r < 0.8 and any((v.get("group") or "") == "mg" for v in marks.values()):
+        if r < 0.88 and any((v.get("group") or "") == "mg" for v in marks.values()):
             return "mg"
         return " ".join(rng.sample(mark_names, rng.randint(1, len(mark_names))))
 
